@@ -242,6 +242,10 @@ def write_loop_rules(F, R, variant):
                         else:
                             zero_starts.append((zbb, ff))
                             nz_starts.append((zbb, tt))
+                elif cond[0] not in ("discr", "bin") and root_call_bb(strip(cond)) == wbb and [int(v) for v, _ in t["targets"]] == [0]:
+                    # the literal-pattern form `Ok(0) => .., Ok(n) => ..`: the payload itself is switched on (benign variant b20)
+                    zero_starts.append((zbb, t["targets"][0][1]))
+                    nz_starts.append((zbb, t["otherwise"]))
     R.ob("W5.zero-write", fn, "Ok(0)", bool(zero_starts) and all(wbb not in body.reachable_from(tb) for _, tb in zero_starts),
          "a zero-length write is an error: the Ok(0) edge returns without calling the pipe again", where=where(body, wbb))
     # W6 progress: on the n != 0 edge back to the header pos += n exactly once
